@@ -236,6 +236,8 @@ class LoadScopeScheduling:
                     self.collection, collection, other_node.gateway.id, node.gateway.id
                 )
                 self.log(msg)
+                # It can not take part: let it exit instead of idling.
+                node.shutdown()
                 return
 
         self.registered_collections[node] = list(collection)
